@@ -265,6 +265,13 @@ func (i *interpreter) callVX(fr *frame, fn *ssa.Function, args []value) value {
 		return i.mk(i.tb.Ite(i.lift(args[0]), i.lift(args[1]), i.lift(args[2])), types.Int)
 	case "B2I":
 		return i.mk(i.tb.Ite(i.lift(args[0]), i.tb.BVConst(1, 64), i.tb.BVConst(0, 64)), types.Int)
+	case "ConstrainHash":
+		i.ps.hashBits = int(i.concInt(args[0]))
+		i.ps.hashAllowed = nil
+		for _, a := range args[1].([]value) {
+			i.ps.hashAllowed = append(i.ps.hashAllowed, uint64(i.concInt(a)))
+		}
+		return nil
 	case "LoadBatch", "Select", "Reset":
 		return 0
 	}
